@@ -90,26 +90,11 @@ def run(pid, tier, replay=None):
     # 5. V: TLC validates everything the real code produced
     files = sorted(glob.glob(sc.path("g-*.ndjson")) + glob.glob(sc.path("r-*.ndjson")))
     files = vlib.drop_partial_lines(files)
-    results = vlib.validate_traces(os.path.join(specdir, mod + "Trace.tla"), os.path.join(specdir, mod + "Trace.cfg"),
-                                   files, sc, timeout=3000, heap="3g")
-    nev = 0
-    for f, acc, tr in results:
-        if acc:
-            nev += max(0, tr.distinct - 1)
-            continue
-        if tr.error and "TRACE-POS" not in tr.out and not tr.violation:
-            # TLC itself failed (not a rejection)
-            raise Broken("trace validation failed to run on %s: %s" % (f, tr.error))
-        pos = vlib.rejected_detail(tr)
-        # re-run once: a rejection is reported only if it repeats
-        f2, acc2, tr2 = vlib.validate_traces(os.path.join(specdir, mod + "Trace.tla"), os.path.join(specdir, mod + "Trace.cfg"), [f], sc, timeout=3000)[0]
-        if acc2:
-            ck.notes.append("non-repeating rejection on %s ignored" % os.path.basename(f))
-            continue
-        ev = offending_event(f, tr2)
-        key = "trace:" + ({1: "insert", 2: "remove", 3: "search"}.get(ev.get("op"), "?") if ev else "?")
-        ck.violation(key, {"what": "TLC rejected the implementation trace (property invariants do not hold on the structure the real code produced)",
-                           "batch": os.path.basename(f), "event": ev, "tlc": pos["tail"][-600:]})
+    nev, bad = vlib.validate_collect(os.path.join(specdir, mod + "Trace.tla"), os.path.join(specdir, mod + "Trace.cfg"), files, sc)
+    for f, idx, ev in bad:
+        key = "trace:" + {1: "insert", 2: "remove", 3: "search"}.get(ev.get("op"), "?")
+        ck.violation(key, {"what": "TLC rejected the recorded call: the property invariants do not hold on the structure the real code produced",
+                           "batch": os.path.basename(f), "index": idx, "event": ev})
     ck.cov["traces_validated_against_impl"] += nev
     ck.part("trace_validation", batches=len(files), events_accepted=nev)
     with open(files[0]) as fh:
